@@ -3,7 +3,7 @@
    Model: Model/GC.v (collect() call by call); normalize_path / marker fallback / constants are
    REGENERATED from garbage_collector.py and transaction.py (Gen/GenNorm.v) on every run. *)
 From Coq Require Import ZArith String Ascii List Bool.
-Require Import DS.Model.PyStr DS.Gen.GenNorm DS.Model.GC DS.Proofs.GCNormProofs DS.Proofs.GCProofs.
+Require Import DS.Model.PyStr DS.Gen.GenNorm DS.Model.GC DS.Proofs.GCNormProofs DS.Proofs.GCProofs DS.Proofs.GCLiveProofs.
 Import ListNotations.
 Open Scope string_scope.
 Open Scope Z_scope.
@@ -23,8 +23,26 @@ Theorem C05_gc_safe : forall (tp : string) (grace now timeout : Z) (snaps : list
   wf_store snaps st ->
   forall k, In k (r_deleted (gc_run tp grace now timeout no_faults snaps st)) ->
     ~ referenced snaps st k /\ ~ live_target now timeout st k /\ exists ob, lookup k st = Some ob /\ mtime ob < now - grace.
-Proof. intros tp grace now timeout snaps st W. exact (gs_deleted _ _ _ _ _ _ (gc_safe_all_faults tp grace now timeout no_faults snaps st W)). Qed.
+Proof. exact gc_safe_nofault. Qed.
 Print Assumptions C05_gc_safe.
+
+(* Orphans ARE removed: in a completed fault-free collection every file under data/ or metadata/manifests/ that no
+   retained snapshot references, no live transaction registered, and that is older than the grace period is deleted. *)
+Theorem C05_gc_live : forall (tp : string) (grace now timeout : Z) (snaps : list string) (st : store),
+  wf_store snaps st -> r_out (gc_run tp grace now timeout no_faults snaps st) = Done ->
+  forall k ob, lookup k st = Some ob ->
+    startswith (DATA_PREFIX ++ "/") k = true \/ startswith (MANIFESTS_PREFIX ++ "/") k = true ->
+    ~ referenced snaps st k -> ~ live_target now timeout st k -> mtime ob < now - grace ->
+    In k (r_deleted (gc_run tp grace now timeout no_faults snaps st)).
+Proof. exact gc_live. Qed.
+Print Assumptions C05_gc_live.
+
+(* On an undamaged store (every referenced list and manifest present and parseable) a fault-free collection never
+   aborts -- for every table location (the unrepaired code aborted every run of a table located at "m" / "metadata"). *)
+Theorem C05_no_abort : forall (tp : string) (grace now timeout : Z) (snaps : list string) (st : store),
+  wf_store snaps st -> undamaged snaps st -> r_out (gc_run tp grace now timeout no_faults snaps st) = Done.
+Proof. exact gc_no_abort. Qed.
+Print Assumptions C05_no_abort.
 
 (* Non-vacuity: a table located at "data" (the location that made the unrepaired normalisation delete
    every live file) with two retained snapshots sharing a manifest, an orphan data file, an orphan
